@@ -3,7 +3,7 @@ SPEC = {
     "level": "proof",
     "lean_modules": ["PallasVerif.Props.C15"],
     "required_theorems": ["E_eq", "exp_zero", "exp_neg_is_recip", "iterations_le_cap", "ln_fails_iff_nonpos", "ln_panics_of_nonpos",
-                          "pow_special_cases", "findE_brackets_partial", "taylor_lower_partial", "exp_lower_partial",
+                          "pow_special_cases", "pow_neg_base", "findE_brackets_partial", "taylor_lower_partial", "exp_lower_partial",
                           "exp_two_sided_unit_partial", "within_error_bound_unit_partial"],
     "streams": [{"name": "refmath", "quick": 800, "thorough": 40000}],
     "rule": "cases of 2..8 ops `exp x` / `ln x` / `pow x y` on stored integers at precision 34. Positive values: 1, e +-2 ulp, "
